@@ -57,7 +57,10 @@ PLANS["C15"]["hang_is_violation"] = True
 ACK_MC = [
     {"module": "MC_Ack_inst", "cfg": "MC_Ack_2x2", "constants": "done || 2 tasks x 2 polls (one changes its waker), all interleavings, safety + <>AllDone under weak fairness"},
 ]
-ACK_MC_T = ACK_MC + [
+ACK_U = {"module": "MC_AckU", "cfg": "MC_AckU", "constants": "done || 3 tasks that poll ANY number of times, each poll with either of 2 wakers (finite state space: done runs once), safety"}
+ACK_U_NOFIX = {"module": "MC_AckU", "cfg": "MC_AckU_nofix", "expect_violation": "NoViolation", "constants": "the same with the repair of D1 switched off in the model: must be violated (vacuity control)"}
+ACK_MC = ACK_MC + [ACK_U]
+ACK_MC_T = ACK_MC + [ACK_U_NOFIX] + [
     {"module": "MC_Ack_inst", "cfg": "MC_Ack_2x3", "constants": "done || 2 tasks x 3 polls"},
     {"module": "MC_Ack_inst", "cfg": "MC_Ack_2x2_nofix", "expect_violation": "FlagImpliesStatus",
      "constants": "same with the D1 repair switched off in the model: must be violated (vacuity control)"},
